@@ -256,10 +256,10 @@ theorem written_bytes_order_independent {β : Type} (n : Nat) (r : Nat → List 
 
 /-- An encoder is *row-group local* for split height `sh` when its output is the concatenation of
 the outputs of an encoder of single row groups (`sh` consecutive rows, the last group possibly
-shorter), applied to the groups in order.  ASSUMPTION about each encoder family, not proved:
-true by reading (`for_each_f32_rgba_rows` hands out `BLOCK_HEIGHT` rows at a time, bottom padding
-replicates rows of the final group only, block-local dithering; global error diffusion is excluded
-by `single_fragment_iff`) and validated on every run by the byte comparison of the tie. -/
+shorter), applied to the groups in order.  A hypothesis of `fragmentwise_eq_whole`; PROVED below for
+the data-flow model of every encoder family that can be split (`row_group_local_uncompressed`,
+`row_group_local_subsample`, `row_group_local_block`) and discharged for all formats in
+`fragmentwise_eq_whole_all_families`. -/
 def RowGroupLocal {ρ β : Type} (enc : List ρ → List β) (sh : Nat) : Prop :=
   ∃ encGroup : List ρ → List β, ∀ img, enc img = (chunks sh img).flatMap encGroup
 
